@@ -122,7 +122,50 @@ func site(skip int) uint64 {
 	for _, pc := range pcs[:n] {
 		h = (h ^ uint64(pc)) * 1099511628211
 	}
+	if h == 0 {
+		h = 1
+	}
+	// remember the frames of every distinct site once (open-addressed table, no Go map)
+	i := h & (siteTabSize - 1)
+	for siteTab[i].hash != 0 && siteTab[i].hash != h {
+		i = (i + 1) & (siteTabSize - 1)
+	}
+	if siteTab[i].hash == 0 {
+		siteTab[i].hash = h
+		siteTab[i].n = copy(siteTab[i].pcs[:], pcs[:n])
+	}
 	return h
+}
+
+const siteTabSize = 1 << 16
+
+type siteEnt struct {
+	hash uint64
+	pcs  [8]uintptr
+	n    int
+}
+
+var siteTab [siteTabSize]siteEnt
+
+// SiteFrames returns the function names (innermost first) of a scheduling-point site.
+func SiteFrames(h uint64) []string {
+	i := h & (siteTabSize - 1)
+	for siteTab[i].hash != 0 && siteTab[i].hash != h {
+		i = (i + 1) & (siteTabSize - 1)
+	}
+	if siteTab[i].hash == 0 {
+		return nil
+	}
+	var out []string
+	frames := runtime.CallersFrames(siteTab[i].pcs[:siteTab[i].n])
+	for {
+		f, more := frames.Next()
+		out = append(out, f.Function)
+		if !more {
+			break
+		}
+	}
+	return out
 }
 
 // Run executes main as thread 0 under the scheduler and returns when every controlled thread has
